@@ -636,50 +636,113 @@ def check_stateless(ctx: Context, rep, rule: str) -> None:
     rep.floor(rule, n, 8, "iteration mixin methods")
 
 
+def walk_terms(ctx: Context) -> dict:
+    """Collection-algebra view of the shard-list walk (shared with C03.walk):
+    what `_shard_info_iterator` yields, and what `shard_info_iterator` yields
+    for a named split and for split=None."""
+    cached = ctx.__dict__.get("_walk_terms")
+    if cached is not None:
+        return cached
+    from sa import collalg, norm
+    w = ctx.fn("sedpack.io.dataset_base:DatasetBase._shard_info_iterator")
+    s = ctx.fn("sedpack.io.dataset_base:DatasetBase.shard_info_iterator")
+    wy = collalg.CollAlg(w).env.get("<yield>", ("empty", ))
+    parts = collalg.concat_parts(wy)
+    wname = w.name
+    out = dict(w=w, s=s, stream=wy, parts=parts, own=None, children=None,
+               order=False, obj=None, parsed=False)
+    for k, p in enumerate(parts):
+        if p[0] == "src" and p[1].endswith(".shard_files"):
+            out["own"] = (k, p[1][:-len(".shard_files")])
+        if p[0] == "flatmap" and p[1][0] == "src" and p[1][1].endswith(
+                ".children_shard_lists"):
+            try:
+                e = ast.parse(p[2], mode="eval").body
+            except SyntaxError:
+                continue
+            if isinstance(e, ast.Call) and isinstance(
+                    e.func, ast.Attribute) and e.func.attr == wname and \
+                    dotted(e.func.value) == "self" and len(e.args) + len(
+                        e.keywords) == 1:
+                arg = (e.args + [kw.value for kw in e.keywords])[0]
+                if names_in(arg) == {"_"}:
+                    out["children"] = (k, p[1][1][:-len(
+                        ".children_shard_lists")])
+    if out["own"] and out["children"] and len(parts) == 2 and \
+            out["own"][1] == out["children"][1]:
+        out["obj"] = out["own"][1]
+        out["order"] = out["own"][0] < out["children"][0]
+        # the object is the parsed list file named by the walker's argument
+        d = norm.canon(w, ast.Name(id=out["obj"], ctx=ast.Load()))
+        param = w.params()[1]
+        out["parsed"] = "model_validate_json(" in d and param in {
+            n.id for n in ast.walk(ast.parse(d, mode="eval"))
+            if isinstance(n, ast.Name)} and "self.path" in d
+    from sa.cfg import TRUTHY
+    out["named"] = collalg.concat_parts(collalg.CollAlg(
+        s, {"split": TRUTHY}).env.get("<yield>", ("empty", )))
+    out["all"] = collalg.concat_parts(collalg.CollAlg(
+        s, {"split": None}).env.get("<yield>", ("empty", )))
+    ctx.__dict__["_walk_terms"] = out
+    return out
+
+
 def check_walk(ctx: Context, rep, rule: str) -> None:
     rep.rule(
         rule,
         "_shard_info_iterator yields all of a list's shard_files (no slice / "
-        "filter) and recurses into every element of children_shard_lists; "
-        "shard_info_iterator(split) walks exactly splits[split] and refuses "
-        "an unknown split")
-    w = ctx.fn("sedpack.io.dataset_base:DatasetBase._shard_info_iterator")
-    yf = [n for n in w.body_nodes() if isinstance(n, ast.YieldFrom)]
-    ok1 = any(ast.unparse(y.value).endswith(".shard_files") for y in yf)
-    fl = [n for n in w.body_nodes() if isinstance(n, ast.For)]
-    ok2 = len(fl) == 1 and ast.unparse(fl[0].iter).endswith(
-        ".children_shard_lists") and not any(isinstance(
-            x, (ast.If, ast.Break, ast.Continue)) for x in ast.walk(fl[0]))
-    parsed = [n for n in w.body_nodes() if isinstance(n, (ast.Assign,
-                                                          ast.AnnAssign))
-              and "model_validate_json" in ast.unparse(n.value or
-                                                       ast.Constant(0))]
-    ok3 = len(parsed) == 1 and f"{w.params()[1]}.shard_list_info_file.file_path" \
-        in ast.unparse(parsed[0].value)
+        "filter) and recurses into every element of children_shard_lists of "
+        "the list file its argument names; shard_info_iterator(split) walks "
+        "exactly splits[split], refuses an unknown split, and walks every "
+        "split for None")
+    from sa import collalg
+    wt = walk_terms(ctx)
+    w, s = wt["w"], wt["s"]
+    ok1 = wt["own"] is not None
+    ok2 = wt["children"] is not None and len(wt["parts"]) == 2
+    ok3 = wt["parsed"]
     rep.ob(rule, ok1 and ok2 and ok3, loc=w.loc(), where=w.qualname,
-           construct="parse(list of the given info); yield from shard_files; "
-           "recurse into every child",
-           message=f"all shards={ok1}, all children={ok2}, parses the list "
-           f"named by its argument={ok3}")
-    s = ctx.fn("sedpack.io.dataset_base:DatasetBase.shard_info_iterator")
-    cfg = CFG(s, env={"split": TRUTHY})
-    live = cfg.live_nodes()
-    sel = [n for n in live if n.kind == "stmt" and isinstance(
-        n.ast, (ast.Assign, ast.AnnAssign)) and n.ast.value is not None and
-           ast.unparse(n.ast.value).endswith("_dataset_info.splits[split]")]
-    rec = [n for n in live if n.kind == "call" and ctx.is_call(
-        s, n.ast, method="_shard_info_iterator")]
+           construct="yields " + collalg.pretty(wt["stream"])[:160],
+           message=f"all shards={ok1}, all children (and nothing else)={ok2}, "
+           f"parses the list named by its argument={ok3}")
+
+    def walk_call(text: str, var: str | None):
+        """self._shard_info_iterator(ARG) -> canonical ARG text."""
+        try:
+            e = ast.parse(text, mode="eval").body
+        except SyntaxError:
+            return None
+        if isinstance(e, ast.Call) and isinstance(e.func, ast.Attribute) and \
+                e.func.attr == w.name and dotted(e.func.value) == "self" and \
+                len(e.args) + len(e.keywords) == 1:
+            return ast.unparse((e.args + [k.value for k in e.keywords])[0])
+        return None
+
+    named = wt["named"]
+    arg = walk_call(named[0][1], None) if len(named) == 1 and \
+        named[0][0] == "gen" else None
+    ok_named = arg is not None and arg.startswith(
+        "self._dataset_info.splits[split]") and arg.count("splits[") == 1
     guard = [n for n in s.body_nodes() if isinstance(n, ast.If) and
-             ast.unparse(n.test) == "split not in self._dataset_info.splits"]
+             ast.unparse(n.test) in (
+                 "split not in self._dataset_info.splits",
+                 "not split in self._dataset_info.splits")]
     from sa.context import raises_in
-    ok = len(sel) == 1 and len(rec) == 1 and dotted(rec[0].ast.args[0]) == \
-        dotted(sel[0].ast.targets[0] if isinstance(sel[0].ast, ast.Assign)
-               else sel[0].ast.target) and len(guard) == 1 and \
-        raises_in(guard[0].body)
-    rep.ob(rule, ok, loc=s.loc(), where=s.qualname,
-           construct="walk(self._dataset_info.splits[split])",
-           message="exactly the requested split is enumerated; an unknown "
-           "split raises")
+    ok_guard = len(guard) == 1 and raises_in(guard[0].body)
+    rep.ob(rule, ok_named and ok_guard, loc=s.loc(), where=s.qualname,
+           construct="split given: " + " ++ ".join(
+               collalg.pretty(p) for p in named)[:120],
+           message="exactly the requested split is enumerated "
+           f"({ok_named}); an unknown split raises ({ok_guard})")
+    al = wt["all"]
+    arg = walk_call(al[0][2], "_v") if len(al) == 1 and al[0][0] == "flatmap" \
+        and al[0][1] == ("items", ("src", "self._dataset_info.splits")) else None
+    ok_all = arg is not None and arg.startswith("_v")
+    rep.ob(rule, ok_all, loc=s.loc(), where=s.qualname,
+           construct="split None: " + " ++ ".join(
+               collalg.pretty(p) for p in al)[:120],
+           message="without a split every split of the table is walked, in "
+           "table order")
 
 
 def check_batch(ctx: Context, rep, rule: str) -> None:
